@@ -127,6 +127,9 @@ def run(chk):
             def rint(x):
                 return int(round(x))          # Python rounds half to even, as rint does in the default mode
             exp_min, exp_max = rint(want_min * half / srate), rint(want_max * half / srate)
+            if int(c["RB"]) != want_rb:
+                ofail.append((r, "setup: a reservoir of %d bits was accepted, but the manager enforces the limits with a reservoir of %s bits" % (want_rb, c["RB"])))
+                continue
             if c.get("managed") != "1" or int(c["minb"]) != exp_min or int(c["maxb"]) != exp_max:
                 ofail.append((r, "setup: hard limits max %d / min %d bit/s with a %d bit reservoir were accepted, but the manager runs with managed=%s min_bitsper=%s max_bitsper=%s (expected 1, %d, %d)" % (
                     want_max, want_min, want_rb, c.get("managed"), c.get("minb"), c.get("maxb"), exp_min, exp_max)))
